@@ -282,7 +282,44 @@ var c09Shared = &vlib.Check{
 	Classify: func(c *vlib.Case) (bool, []string) { return true, []string{"piece-included-twice"} },
 }
 
-func init() { vlib.Register(c09Model, c09Corpus, c09Shared) }
+// c09Deep: the whole document behind a chain of nested INCLUDEs, 2 to 40 files deep (no file repeated): the pieces of a
+// split may themselves be split, to any depth - model-split nests up to 4.
+var c09Deep = &vlib.Check{
+	Prop: "C09", Name: "deep-chain", Quick: 400, Thorough: 30000,
+	Oracle: sameCatalogOracle("c09", "split"),
+	Gen: func(t *rapid.T) *vlib.Case {
+		r := vlib.RapidRnd{T: t}
+		doc := mdl.Gen(r)
+		tree := mdl.BuildTree(doc, mdl.TreeOpts{R: r})
+		lay := mdl.RandomLayout(r)
+		base := mdl.Render(tree, lay)
+		depth := 2 + r.Intn(7)
+		if vlib.Chance(r, 1, 2) {
+			depth = 9 + r.Intn(32)
+		}
+		st := mdl.Chain(r, tree, depth)
+		if st == nil {
+			return nil
+		}
+		sp := mdl.Render(st, lay)
+		return &vlib.Case{Project: renderedProject(base), Project2: renderedProject(sp), Params: map[string]any{"depth": depth, "files": len(sp.Files)}}
+	},
+	Classify: func(c *vlib.Case) (bool, []string) {
+		d := asInt(c.Params["depth"])
+		cls := "depth-2..8"
+		switch {
+		case d > 32:
+			cls = "depth-33..40"
+		case d > 16:
+			cls = "depth-17..32"
+		case d > 8:
+			cls = "depth-9..16"
+		}
+		return d > 8, []string{cls}
+	},
+}
+
+func init() { vlib.Register(c09Model, c09Corpus, c09Shared, c09Deep) }
 
 func TestC09(t *testing.T) {
 	if vlib.Shard() == 0 {
@@ -306,6 +343,7 @@ func TestC09(t *testing.T) {
 	t.Run("model-split", c09Model.Run)
 	t.Run("fault-split", c09Faults.Run)
 	t.Run("shared-piece", c09Shared.Run)
+	t.Run("deep-chain", c09Deep.Run)
 }
 
 // c09Faults: the second sentence of the property.  A model document with one planted fault is rendered twice with the same
